@@ -194,7 +194,7 @@ class tail_vector {
                 }
                 tpos += 1;
             } while (kpos < key.size());
-            return kpos;
+            return std::nullopt;  // key ran out before the suffix was terminated
         } else {
             do {
                 if (!m_chars[tpos]) {
@@ -206,7 +206,10 @@ class tail_vector {
                 kpos += 1;
                 tpos += 1;
             } while (kpos < key.size());
-            return kpos;
+            if (!m_chars[tpos]) {
+                return kpos;
+            }
+            return std::nullopt;  // key ran out before the suffix was terminated
         }
     }
 
